@@ -5,6 +5,20 @@ def run(ctx):
     ctx.tlc_mc("MC_Kernels", "MC_Kernels.cfg", workers=1, coverage=False, timeout=900, cache=True)
     # concurrent column grouping: every intersection graph on N columns x every interleaving of check / union
     ctx.tlc_mc("MC_GroupCols", "MC_GroupCols.thorough.cfg" if ctx.thorough else "MC_GroupCols.quick.cfg", workers=8, timeout=1700, coverage=True)
+    # extension: the union-find structure behind the column grouping as a state machine (all partitions of 5 elements reachable by unions;
+    # every union sequence of length 3 on 4 elements replayed on UnionFind and KeyedUnionFind; random histories validated)
+    ctx.tlc_mc("MC_UnionFindM", "MC_UnionFindM.cfg", workers=4, timeout=600, coverage=True)
+    upath, uobjs = ctx.tlc_gen("Gen_UnionFindM", "Gen_UnionFindM.thorough.cfg" if ctx.thorough else "Gen_UnionFindM.cfg", workers=1)
+    usumm, umism, _ = ctx.yv("uf", "replay", "--in", upath)
+    for m in umism[:20]:
+        ctx.violation("unionfind:replay:%s" % json.dumps(m["case"].get("unions")), "UnionFind after unions %s: partition differs from the model's %s (%s)" % (
+            json.dumps(m["case"].get("unions")), json.dumps(m["case"].get("classes")), json.dumps(m.get("got_groups", m.get("panic")))), m)
+    utrace = ctx.path("uf_trace.ndjson")
+    usumm2, _, _ = ctx.yv("uf", "record", "--seed", ctx.seed, "--tier", ctx.tier, "--out", utrace)
+    ur = ctx.tlc_trace("Trace_UnionFindM", "Trace_UnionFindM.cfg", utrace, timeout=1800, tag="Trace_UnionFindM")
+    ctx.trace_verdict(ur, utrace, "union-find history", key_prefix="unionfind")
+    ctx.cov["conformance"].append({"direction": "UnionFind: spec->impl replay + impl->spec histories", **usumm["replay"], **{"recorded_" + k: v for k, v in usumm2["record"].items()}, "accepted": ur["accepted"]})
+    ctx.cov["evaluations"] += usumm["replay"]["histories"] + usumm2["record"]["events"]
     # A: TLC enumerates every unit-triangular 3x3 integer matrix with entries -1..1 and right-hand sides (quick: every 9th)
     path, objs = ctx.tlc_gen("Gen_Kernels", "Gen_Kernels.cfg", workers=1)
     # ... and every 0/1 pattern on 3x4 for the block splitting (one thread and sixteen)
